@@ -17,10 +17,10 @@ What is NOT covered by these theorems and is covered by suite `load` instead:
   `load_layout_from_file` (truncations, invalid UTF-8, BOM, duplicate keys, huge numbers, 10 000 and
   1 000 000 levels of nesting in a child process) must return `Ok`/`Err`;
 * that the model is the code: differential testing of model vs implementation under `catch_unwind`;
-* index-safety of the three index loops of `src/key_transforms.rs` when the mapper is driven:
-  the mapper MODEL's `step` is a total function, so "driven with any sequence of key events without
-  panicking" holds of the model by construction; for the Rust code it is checked by the
-  correspondence runs of suites `mapper` and `load` under `catch_unwind`, not by `C14_run`.
+Index-safety of the index loops of `src/key_transforms.rs` when the mapper is driven is NOT in this file
+(the structural mapper model's `step` is a total function, so here "driven … without panicking" holds
+by construction): it is `Props/C14Idx.lean` — `C14_steps`, `C14_install`, `C14_idx` about the
+index-faithful twin `Model/MapperIdx.lean`.
 -/
 import TmVerif.Proofs.LoadShape
 
@@ -94,8 +94,8 @@ theorem load_wf {j : Json} {L : Layout} (h : load j = Outcome.ok L) : Layout.wf 
 
 /-- A well-formed layout installs in the mapper (`Mapper::for_layout` does not panic; `none` models
 its panic).  From then on `step` and `run` are total functions of the model, so every history of
-key events is processed.  Index-safety of the three Rust index loops is covered by the
-correspondence runs under `catch_unwind` (suites `mapper`, `load`), not by this theorem. -/
+key events is processed.  Index-safety of the Rust index loops is `C14_steps` / `C14_idx`
+(`Props/C14Idx.lean`), not this theorem. -/
 theorem C14_run {L : Layout} (h : Layout.wf L = true) : forLayout L ≠ none := by
   simp [forLayout, h]
 
